@@ -8,7 +8,6 @@
   rule, without the untied-profile side conditions); `C07_DroopPSC_holds_for_untied_profiles` relates
   the two. The proof is an invariant over the count: `psc_step` / `psc_loop` / `psc_final`.
 -/
-import VK.Props.Kernels
 import VK.Model.STV
 import VK.Lemmas.Sum
 import VK.Lemmas.PSC
